@@ -9,7 +9,6 @@ use crate::{
     collections::handle_table::Handle,
     compiled_program::CaoCompiledProgram,
     procedures::ExecutionErrorPayload,
-    traits::MAX_STR_LEN,
     value::Value,
     VariableId,
 };
@@ -25,8 +24,8 @@ use super::{
 
 pub fn read_str<'a>(instr_ptr: &mut usize, program: &'a [u8]) -> Option<&'a str> {
     let p = *instr_ptr;
-    let limit = program.len().min(p + MAX_STR_LEN);
-    let (len, s): (_, &'a str) = decode_str(&program[p..limit])?;
+    // the length prefix says where the string ends: the compiler stores strings of any length
+    let (len, s): (_, &'a str) = decode_str(&program[p..])?;
     *instr_ptr += len;
     Some(s)
 }
